@@ -54,6 +54,7 @@ fn main() {
         }
         "c08-child" => props::c08::child_main(&args[2..]),
         "c15-child" => props::c15::child_main(&args[2..]),
+        "c02-cold-child" => props::c02::cold_child_main(&args[2..]),
         "det-child" => determinism::child_main(&args[2..]),
         "stall-seed" => {
             // reproduce the repository's test_stalling_operation_falcon_1024 for a printed seed
